@@ -5,7 +5,6 @@ include/spsc_fifo.h, coq/SpChan.v, lock-step + monitor only; the channel
 mutex and the wait/wake/maintenance protocol are the real src/fiber_mutex.c,
 src/fiber_manager.c) on the T1 machine with coq/Signal.v, coq/UChan.v, coq/BChan.v
 (clients of coq/T1K.v via coq/ChanK.v) and coq/MChan.v, + implementation-side monitors."""
-import json
 import os
 import random
 
@@ -15,7 +14,7 @@ THEOREMS = [
     "signal_word_domain", "signal_no_lost_raise", "signal_wake_after_sleep",
     "chan_exactly_once_in_sender_order", "chan_receiver_not_stranded",
     "bounded_capacity", "bounded_exactly_once_in_order", "bounded_receiver_not_stranded",
-    "multichan_no_stranded_refuted", "multichan_capacity_partial",
+    "multichan_no_stranded_one_list_refuted", "multichan_capacity_partial",
     "multichan_exactly_once_in_order_partial", "multichan_no_stranded_partial",
 ]
 T1_SOURCES = ["src/fiber_manager.c", "src/fiber.c", "src/fiber_mutex.c", "src/fiber_spinlock.c",
@@ -361,8 +360,7 @@ def mon_mchan(case, tr, raw):
     if blocked:
         bs = [t for t in blocked if opidx[t] < len(progs[t]) and progs[t][opidx[t]][0] == MSEND]
         br = [t for t in blocked if opidx[t] < len(progs[t]) and progs[t][opidx[t]][0] == MRECV]
-        kinds = ("mixed waiter list: blocked senders %s and blocked receivers %s" % (bs, br)) if bs and br else \
-                ("only %s blocked: %s" % ("senders" if bs else "receivers", bs or br))
+        kinds = "blocked senders %s, blocked receivers %s" % (bs, br)
         if bs and high - low < size:
             return "stranded sender: thread(s) %s blocked forever although the buffer has room (%d of %d), nobody runnable; %s" % (
                 bs, high - low, size, kinds)
@@ -380,35 +378,6 @@ def mon_spchan(case, tr, raw):
 
 MONITORS = {"signal": mon_signal, "uchan": mon_uchan, "bchan": mon_bchan, "mchan": mon_mchan,
             "spchan": mon_spchan}
-
-
-# --------------------------------------------------------------------------
-# known finding F-C11
-# --------------------------------------------------------------------------
-def match_fc11(label, case, why):
-    if label != "mchan" or not why:
-        return False
-    if not (why.startswith("stranded sender") or why.startswith("stranded receiver")):
-        return False
-    if "mixed waiter list" not in why:
-        return False
-    _, progs = parse_case(case)
-    ns = sum(1 for p in progs if any(o == MSEND for (o, _) in p))
-    nr = sum(1 for p in progs if any(o == MRECV for (o, _) in p))
-    return ns >= 2 and nr >= 2
-
-
-def known():
-    p = os.path.join(core.VERIF, "known_findings_C11.json")
-    try:
-        ents = json.load(open(p))["findings"]
-    except (OSError, ValueError, KeyError):
-        return []
-    out = []
-    for e in ents:
-        if e.get("id") == "F-C11":
-            out.append({"id": e["id"], "what": e["what"], "match": match_fc11})
-    return out
 
 
 # --------------------------------------------------------------------------
@@ -603,7 +572,6 @@ def run(ctx):
     core.coq_property(ctx, "Properties_C11.v", THEOREMS)
     cases = gen_cases(ctx, ctx.tier)
     cor = corpus()
-    kn = known()
     allok = True
     exes = {}
     tot = {"cases": 0, "differ": 0, "nontrivial": 0}
@@ -614,22 +582,21 @@ def run(ctx):
             allok = False
             continue
         cs = cor.get(label, []) + cases[label]
-        core.correspond(ctx, label, label, exe, cs, MONITORS[label], kn)
+        core.correspond(ctx, label, label, exe, cs, MONITORS[label])
         st = ctx.stats[label]
         for k in tot:
             tot[k] += st[k]
-        # monitor verdicts that match a known finding are printed, not failures
         allok = allok and st["differ"] == 0
     ctx.coverage.update({"traces_validated_against_impl": tot["cases"] - tot["differ"],
                          "evaluations": tot["cases"], "distinct_nontrivial": tot["nontrivial"],
                          "rule": "case = (programs of wait/raise resp. send/receive per fiber, schedule); non-trivial = a CAS "
                                  "failed or a call returned 0 in the implementation trace"})
     if (not allok or ctx.failures) and not ctx.violations:
-        search(ctx, exes, kn)
+        search(ctx, exes)
     core.finish(ctx, extra_assumptions=ASSUME)
 
 
-def search(ctx, exes, kn):
+def search(ctx, exes):
     c2 = core.Ctx(ctx.pid, "thorough", ctx.seed + 1000)
     try:
         cases = gen_cases(c2, "thorough")
@@ -644,7 +611,7 @@ def search(ctx, exes, kn):
         for c, line in zip(cs, impl):
             why = MONITORS[label](c, core.parse_trace(line) if line else None, line)
             if why:
-                core.report_violation(ctx, label, c, why, line, kn)
+                core.report_violation(ctx, label, c, why, line)
                 if len(ctx.violations) >= 3:
                     return
 
@@ -664,9 +631,6 @@ def replay(ctx, payload):
     why = MONITORS[label](c, core.parse_trace(impl), impl)
     print("harness: %s\ncase:  %s\nimpl:  %s\nmodel: %s\nmonitor: %s\nlock-step: %s" %
           (label, c, impl, mod, why or "ok", "identical" if impl == mod else "DIFFER"))
-    if why and any(k["match"](label, c, why) for k in known()):
-        print("KNOWN-FINDING: property=C11 (F-C11) this replay is the recorded multi-channel stranding")
-        return 0 if impl == mod else 1
     return 1 if (why or impl != mod) else 0
 
 
